@@ -166,6 +166,26 @@ def mul(a, b):
             return _map_leaves(a, lambda k: 0 if k == 0 else (b if k == 1 else k * b))
         if is_sym(b) and not (z3.is_int_value(b) or z3.is_rational_value(b)) and _is_const_leaf_tree(b) and is_sym(a):
             return _map_leaves(b, lambda k: 0 if k == 0 else (a if k == 1 else a * k))
+        if is_sym(a) and is_sym(b) and z3.is_int(a) and z3.is_int(b):
+            # products of two symbolic integers are kept as sums of monomials (distributed over +
+            # and over numeral factors), so that e.g. (t+1)*n and t*n + n are the same term
+            for x, y in ((a, b), (b, a)):
+                if z3.is_app_of(x, z3.Z3_OP_ADD):
+                    out = None
+                    for ch in x.children():
+                        m = mul(ch, y)
+                        out = m if out is None else out + m
+                    return out
+                if z3.is_app_of(x, z3.Z3_OP_SUB) and x.num_args() == 2:
+                    return mul(x.arg(0), y) - mul(x.arg(1), y)
+                if z3.is_app_of(x, z3.Z3_OP_MUL) and x.num_args() == 2 and z3.is_int_value(x.arg(0)):
+                    return x.arg(0) * mul(x.arg(1), y)
+            if z3.is_int_value(a) or z3.is_int_value(b):
+                return a * b
+            # canonical operand order for monomials
+            if a.get_id() > b.get_id():
+                a, b = b, a
+            return a * b
         return to_z3(a) * to_z3(b) if not (is_sym(a) and is_sym(b)) else a * b
     return a * b
 
@@ -363,6 +383,33 @@ SUM_DEFS = {}
 CONGRUENT_DECLS = set()   # names of uninterpreted functions with array arguments (assumed row-wise callables)
 
 
+def _mentions_congruent(t, _depth=0):
+    if _depth > 6 or not z3.is_app(t):
+        return False
+    nm = t.decl().name()
+    if nm in SUM_DEFS or nm in CONGRUENT_DECLS:
+        return True
+    return any(_mentions_congruent(c, _depth + 1) for c in t.children())
+
+
+_SUM_LEMMAS = []
+
+
+class sum_lemmas:
+    """while active, every split of an equality between sums (sum_congr_range) may use the given lemma
+    instances about the summation index: fn(k) -> formula, added as an antecedent of the summand goal.
+    The instances are the caller's responsibility (proved lemma schemas, listed as trusted)."""
+
+    def __init__(self, *fns):
+        self.fns = fns
+
+    def __enter__(self):
+        _SUM_LEMMAS.append(self.fns)
+
+    def __exit__(self, *a):
+        _SUM_LEMMAS.pop()
+
+
 def smart_eq(x, y, depth=0):
     """sufficient condition for x == y that never needs lambda extensionality: equalities between
     applications of the same uninterpreted row-wise function are split argument-wise, array
@@ -387,11 +434,20 @@ def smart_eq(x, y, depth=0):
         lo1, hi1, lo2, hi2 = x.arg(nx - 2), x.arg(nx - 1), y.arg(ny - 2), y.arg(ny - 1)
         sa = z3.simplify(sum_summand(x, k))
         sb = z3.simplify(sum_summand(y, k))
-        return And(eq(lo1, lo2), eq(hi1, hi2), Implies(And(lo1 <= k, k < hi1), smart_eq(sa, sb, depth + 1)))
+        lem = [fn(k) for fns in _SUM_LEMMAS for fn in fns]
+        return And(eq(lo1, lo2), eq(hi1, hi2), Implies(And(lo1 <= k, k < hi1, *lem), smart_eq(sa, sb, depth + 1)))
+    if (z3.is_app(x) and z3.is_app(y) and x.decl().kind() == y.decl().kind() and x.num_args() == y.num_args() and x.num_args() >= 1
+            and x.decl().kind() in (z3.Z3_OP_MUL, z3.Z3_OP_ADD, z3.Z3_OP_SUB, z3.Z3_OP_DIV, z3.Z3_OP_TO_REAL, z3.Z3_OP_UMINUS)
+            and _mentions_congruent(x) and _mentions_congruent(y)):
+        # arithmetic over applications of row-wise functions / sums: equal operands suffice (a
+        # sufficient condition; keeping the plain equality as an alternative would hand the solver the
+        # disequality of lambda-carrying terms, which is what this function exists to avoid)
+        parts = [smart_eq(a, b, depth + 1) for a, b in zip(x.children(), y.children())]
+        return And(*parts)
     if z3.is_app(x) and z3.is_app(y) and x.decl().name() in CONGRUENT_DECLS and x.decl().eq(y.decl()):
         conj = []
         for a, b in zip(x.children(), y.children()):
-            if z3.is_array(a):
+            if z3.is_array_sort(a):
                 dom = []
                 srt = a.sort()
                 k = 0
